@@ -32,6 +32,7 @@ type CEnv struct {
 	qdepth int
 	nows   []*Term
 	calleeNows *[]*Term
+	atlock *State // state at the callee's lock acquisition (call sites); nil: the current state's own snapshot
 }
 
 type cevalErr struct{ msg string }
@@ -200,6 +201,18 @@ func (env *CEnv) eval(x *CExpr) CV {
 func (env *CEnv) ident(name string) CV {
 	if v, ok := env.vars[name]; ok {
 		return v
+	}
+	if name == "clock" {
+		// the ghost clock: latest time.Now reading
+		var out *Term
+		env.e.clock0()
+		env.withState(env.st, func() { out = env.e.heapGet("GH.clock", STime) })
+		return CV{V: out, T: timeType(env.e.P)}
+	}
+	if gv := env.e.P.Ghosts[name]; gv != nil {
+		var out *Term
+		env.withState(env.st, func() { out = env.e.heapGet("GH.u."+name, gv.Sort) })
+		return CV{V: out, T: gv.T}
 	}
 	switch name {
 	case "true":
@@ -769,12 +782,26 @@ func (env *CEnv) quant(x *CExpr) CV {
 		case "string":
 			sort, T = SStr, types.Typ[types.String]
 		default:
-			cfail("quantifier over type %s", v.Type)
+			// a named struct type of the program
+			if nt := env.e.P.lookupType(v.Type); nt != nil {
+				sort, T = sortOf(nt), nt
+			} else {
+				cfail("quantifier over type %s", v.Type)
+			}
 		}
 		vars = append(vars, [2]string{name, sort})
 		sub.vars[v.Name] = CV{V: Sym(name, sort), T: T}
+		// bound variables of time or struct type range over well-formed values
+		if T != nil && hasInv(T) {
+			if _, isStruct := types.Unalias(T).Underlying().(*types.Struct); isStruct || isTimeType(T) {
+				ac := IntLit(1)
+				if env.st != nil && env.st.ac != nil {
+					ac = env.st.ac
+				}
+				ranges = append(ranges, invOf(T, Sym(name, sort), ac))
+			}
+		}
 	}
-	_ = ranges
 	var body *Term
 	env.e.vc.frozen++
 	func() {
@@ -782,7 +809,13 @@ func (env *CEnv) quant(x *CExpr) CV {
 		body = sub.adapt(sub.eval(x.X), SBool)
 	}()
 	if x.Kind == "forall" {
+		if len(ranges) > 0 {
+			body = Implies(And(ranges...), body)
+		}
 		return CV{V: Forall(vars, body), T: types.Typ[types.Bool]}
+	}
+	if len(ranges) > 0 {
+		body = And(append(append([]*Term{}, ranges...), body)...)
 	}
 	return CV{V: Exists(vars, body), T: types.Typ[types.Bool]}
 }
@@ -868,6 +901,50 @@ func (env *CEnv) call(x *CExpr) CV {
 			var out CV
 			env.withState(env.st, func() { out = CV{V: env.e.unbox(env.asTerm(v), t), T: t} })
 			return out
+		case "strjoin":
+			// strjoin(elems, sep): the model of strings.Join
+			sl := env.asTerm(env.eval(x.Args[0]))
+			sep := env.adapt(env.eval(x.Args[1]), SStr)
+			var out *Term
+			env.withState(env.st, func() { out = env.e.strJoin(sl, sep) })
+			return CV{V: out, T: types.Typ[types.String]}
+		case "mk":
+			// mk("pkg.T", f1, f2, ...): a struct value from its field values in declaration order
+			s, _ := strconv.Unquote(x.Args[0].Name)
+			t := env.e.P.lookupType(s)
+			if t == nil {
+				cfail("mk: unknown type %s", s)
+			}
+			si := structInfo(t)
+			if len(x.Args)-1 != len(si.Fields) {
+				cfail("mk: %s has %d fields", s, len(si.Fields))
+			}
+			args := make([]*Term, len(si.Fields))
+			for i := range si.Fields {
+				args[i] = env.adapt(env.eval(x.Args[i+1]), si.Fields[i].Sort)
+			}
+			return CV{V: Mk(si.Ctor, si.Sort, args...), T: t}
+		case "held":
+			// held(lock): 0 none, 1 read, 2 write
+			p := env.lockPtr(x.Args[0])
+			if p == nil {
+				cfail("held: not a lock path")
+			}
+			var out *Term
+			env.withState(env.st, func() { out = env.e.heldGet(lockKey(p), env.e.guardOfLock(p)) })
+			return CV{V: Resize(int2bvHeld(out), 64, false), T: types.Typ[types.Int]}
+		case "atlock":
+			// atlock(e): e in the state right after the last acquisition of a declared lock
+			st := env.atlock
+			if st == nil && env.st != nil {
+				st = env.st.atlock
+			}
+			if st == nil {
+				cfail("atlock: no unique lock acquisition on this path")
+			}
+			sub := *env
+			sub.st = st
+			return sub.eval(x.Args[0])
 		case "present":
 			// present(m, k): key k is in map m
 			m := env.eval(x.Args[0])
@@ -1051,4 +1128,35 @@ func (env *CEnv) pureMethod(recv CV, name string, args []*CExpr) (CV, bool) {
 		}
 	}
 	return CV{}, false
+}
+
+// int2bvHeld turns a lock level (Int 0..2) into a 64-bit value without int2bv.
+func int2bvHeld(t *Term) *Term {
+	return Ite(Eq(t, IntLit(0)), BVLitI(0, 64), Ite(Eq(t, IntLit(1)), BVLitI(1, 64), BVLitI(2, 64)))
+}
+
+// lockPtr resolves a lock expression p.f (p a pointer to a struct, f a mutex field) to the field's address.
+func (env *CEnv) lockPtr(x *CExpr) *Ptr {
+	if x.Kind != "sel" {
+		return nil
+	}
+	base := env.eval(x.X)
+	pt, ok := types.Unalias(base.T).Underlying().(*types.Pointer)
+	if !ok {
+		return nil
+	}
+	st, ok := types.Unalias(pt.Elem()).Underlying().(*types.Struct)
+	if !ok {
+		return nil
+	}
+	idx, ft := fieldByName(st, x.Name)
+	p, isP := base.V.(*Ptr)
+	if idx < 0 || !isP {
+		return nil
+	}
+	np := *p
+	np.NonNil = true
+	np.Path = append(append([]PathEl(nil), p.Path...), PathEl{Field: idx, ContT: pt.Elem()})
+	np.Typ = ft
+	return &np
 }
